@@ -236,7 +236,15 @@ def _run_lines(cmd, lines, env=None, timeout=3000):
     e = dict(os.environ)
     if env:
         e.update(env)
-    p = subprocess.run(cmd, input=data, stdout=subprocess.PIPE, stderr=subprocess.PIPE, timeout=timeout, env=e)
+    def big_stack():
+        # extracted list functions are not tail recursive: give the model runs a large stack
+        import resource
+        try:
+            resource.setrlimit(resource.RLIMIT_STACK, (resource.RLIM_INFINITY, resource.RLIM_INFINITY))
+        except (ValueError, OSError):
+            pass
+    p = subprocess.run(cmd, input=data, stdout=subprocess.PIPE, stderr=subprocess.PIPE, timeout=timeout, env=e,
+                       preexec_fn=big_stack if cmd and cmd[0] == MODELRUN else None)
     out = p.stdout.decode("utf-8", "replace").split("\n")
     if out and out[-1] == "":
         out.pop()
